@@ -6,12 +6,16 @@ import (
 	"testing"
 
 	"github.com/ipfs/go-cid"
+	cidlink "github.com/ipld/go-ipld-prime/linking/cid"
 	"github.com/ipld/go-ipld-prime/traversal"
 	"github.com/libp2p/go-libp2p/core/peer"
 	"pgregory.net/rapid"
 
 	"github.com/ipfs/go-graphsync"
 	gsimpl "github.com/ipfs/go-graphsync/impl"
+	gsmsg "github.com/ipfs/go-graphsync/message"
+
+	"verif/harness/dagen"
 
 	"verif/harness/pbt"
 	"verif/harness/scen"
@@ -40,6 +44,7 @@ type Case struct {
 	Responder bool      `json:"responder_site"`
 	G         int       `json:"global"`
 	P         int       `json:"per_request"`
+	Warmup    int       `json:"warmup"` // requests the enforcing peer has already handled before the judged one (budgets are per request)
 }
 
 func gen(t *rapid.T) Case {
@@ -51,6 +56,7 @@ func gen(t *rapid.T) Case {
 	if c.G == bZero && c.P == bZero {
 		c.G = rapid.IntRange(bOne, bLarge).Draw(t, "G2")
 	}
+	c.Warmup = rapid.SampledFrom([]int{0, 0, 1, 2}).Draw(t, "warmup")
 	return c
 }
 
@@ -124,6 +130,36 @@ func judge(c Case) *pbt.Verdict {
 		rq.GS.RegisterIncomingBlockHook(func(_ peer.ID, _ graphsync.ResponseData, _ graphsync.BlockData, _ graphsync.IncomingBlockHookActions) {
 			reqBlocks++
 		})
+		// history: the enforcing peer has handled other requests before; the budget is per request
+		for k := 0; k < c.Warmup; k++ {
+			if c.Responder {
+				w.AddScripted(scen.ThirdID)
+				id, err := graphsync.ParseRequestID([]byte(fmt.Sprintf("c07-warmup-req-%d", k)))
+				if err != nil {
+					panic(err)
+				}
+				w.Net.Connect(scen.ThirdID, scen.RespID)
+				if err := w.Net.Inject(scen.ThirdID, scen.RespID, gsmsg.NewMessage(map[graphsync.RequestID]gsmsg.GraphSyncRequest{id: gsmsg.NewRequest(id, p.B.Root, p.Sel, 0)}, nil, nil)); err != nil {
+					panic(err)
+				}
+				w.Net.Deliver(scen.ThirdID, scen.RespID)
+				w.Quiesce()
+			} else {
+				// a small DAG the requestor holds entirely: the request completes without the network
+				wd := dagen.DAG{Blocks: []dagen.Block{{Raw: true, Data: fmt.Sprintf("warm-up leaf %d", k)}, {Node: &dagen.Val{K: "list", Vals: []*dagen.Val{{K: "link", L: 0}, {K: "link", L: 0}}}}}}
+				wb, err := wd.Build()
+				if err != nil {
+					continue
+				}
+				for cc, d := range wb.Data {
+					rq.Store.Put(cc, d)
+				}
+				res := w.Request(rq, scen.RespID, cidlink.Link{Cid: wb.Root}, dagen.RecAll(-1).Node())
+				w.Quiesce()
+				_ = res
+			}
+		}
+		reqBlocks = 0
 	}
 	o := scen.Exchange(outerT, p, opts)
 	site := "requestor"
@@ -138,6 +174,9 @@ func judge(c Case) *pbt.Verdict {
 	}
 	if G > 0 && P > 0 {
 		v.Label("both-budgets")
+	}
+	if c.Warmup > 0 {
+		v.Label("after-earlier-requests")
 	}
 	switch {
 	case int(N) < needed:
@@ -160,7 +199,7 @@ func judge(c Case) *pbt.Verdict {
 	respPresent, respEntries := 0, 0
 	var finalStatus graphsync.ResponseStatusCode
 	for _, e := range o.Sent {
-		if e.From != scen.RespID {
+		if e.From != scen.RespID || e.To != scen.ReqID {
 			continue
 		}
 		for _, r := range e.Msg.Responses() {
